@@ -186,7 +186,16 @@ theorem line_file_index (version : Nat) (files : List Nat) (index : Nat) :
 
 /-- the loop of `read_row` always consumes the instructions it looks at: when it hands a row to
 the caller, what remains is strictly shorter (so the fuel of `convLoop`, the instruction count + 1,
-is enough and `ConvertLineProgram::convert` terminates) -/
+is enough and `ConvertLineProgram::convert` terminates).
+
+Totality after the repairs of C12-L2/L3: the conversion Model returns a value or a `ConvertError`
+on every input, except for panics that all come from the *writer*: the unchecked arithmetic of
+`generate_row` / `op_advance` (line numbers ≥ 2^63, finding C13-3; operation advances ≥ 2^64,
+C13-4; an operation pointer that goes backwards in a VLIW program, C12-L5 — all debug builds only)
+and the `assert!`s of `add_directory` / `add_file` on strings a parsed header cannot contain (an
+empty include directory of a version ≤ 4 table, a NUL inside a name). `line_rows_preserved`
+(`Props/C12LineRows.lean`) shows that for tombstone-free non-VLIW programs with line numbers below
+2^63 no step of the row loop panics. -/
 theorem line_read_row_consumes (strs : Strs) (h : Params) : ∀ (is : List Instr) (tomb : Bool)
     (address : Option Nat) (st st' : CSt) (ev : RowEv) (rest : List Instr),
     readRowLoop strs h tomb address st is = .ok (some ev, st', rest) → rest.length < is.length := by
